@@ -277,7 +277,7 @@ func TestC20_registry_forwarding(t *testing.T) {
 // ---- life cycle -------------------------------------------------------------------------------
 
 type c20LOp struct {
-	K string `json:"k"` // start | stop | pause | gauge
+	K string `json:"k"` // start | pstart (N goroutines call Start at the same moment) | stop | pause | gauge
 	N int    `json:"n,omitempty"`
 }
 
@@ -292,7 +292,9 @@ func genC20L(t *rapid.T) c20LifeCase {
 	c := c20LifeCase{Backend: rapid.SampledFrom([]string{"gometrics", "datadog"}).Draw(t, "backend"),
 		PollUs: rapid.SampledFrom([]int{200, 500, 1000}).Draw(t, "poll")}
 	op := rapid.Custom(func(t *rapid.T) c20LOp {
-		switch k := rapid.IntRange(0, 9).Draw(t, "k"); {
+		switch k := rapid.IntRange(0, 10).Draw(t, "k"); {
+		case k == 10:
+			return c20LOp{K: "pstart", N: rapid.IntRange(2, 6).Draw(t, "starters")}
 		case k < 4:
 			return c20LOp{K: "start"}
 		case k < 7:
@@ -420,7 +422,7 @@ func runC20L(_ *testing.T, c c20LifeCase) (out kit.Outcome) {
 			if !running && sawStop {
 				sawPauseAfterStop = true
 			}
-		case "start":
+		case "start", "pstart":
 			stamp := clock.Add(1)
 			if !running {
 				if o := checkQuiet(stamp, "while the registry was not started"); o != nil {
@@ -431,7 +433,28 @@ func runC20L(_ *testing.T, c c20LifeCase) (out kit.Outcome) {
 				sawDoubleStart = true
 			}
 			before := nPolls()
-			b.reg.Start()
+			if op.K == "pstart" {
+				var ready, wg sync.WaitGroup
+				var gate atomic.Bool
+				for g := 0; g < op.N; g++ {
+					ready.Add(1)
+					wg.Add(1)
+					go func() {
+						defer wg.Done()
+						ready.Done()
+						for !gate.Load() {
+							runtime.Gosched()
+						}
+						b.reg.Start()
+					}()
+				}
+				ready.Wait()
+				gate.Store(true)
+				wg.Wait()
+				sawDoubleStart = true
+			} else {
+				b.reg.Start()
+			}
 			running = true
 			// after Start at least one poll arrives
 			if !waitFor(30*time.Second, func() bool { return nPolls() > before }) {
@@ -670,5 +693,103 @@ func TestC20_registry_pollall(t *testing.T) {
 			return c
 		},
 		Run: runC20P, NoShrink: true,
+	})
+}
+
+// ---- Start called by several goroutines at the same moment -------------------------------------
+
+type c20SCase struct {
+	Backend  string `json:"backend"`
+	Starters int    `json:"starters"`
+	Trials   int    `json:"trials"`
+}
+
+func runC20S(_ *testing.T, c c20SCase) kit.Outcome {
+	period := 200 * time.Microsecond
+	for trial := 0; trial < c.Trials; trial++ {
+		b, err := newBackend(c.Backend, "p", period)
+		if err != nil {
+			return kit.Outcome{Harness: err.Error()}
+		}
+		var clock atomic.Int64
+		var mu sync.Mutex
+		var polls []pollRec
+		b.reg.RegisterGauge("g", func() (float64, bool) {
+			s := clock.Add(1)
+			g := kit.GoID()
+			mu.Lock()
+			polls = append(polls, pollRec{s, g})
+			mu.Unlock()
+			return 1, true
+		})
+		var ready, wg sync.WaitGroup
+		var gate atomic.Bool
+		for g := 0; g < c.Starters; g++ {
+			ready.Add(1)
+			wg.Add(1)
+			go func() {
+				defer wg.Done()
+				ready.Done()
+				for !gate.Load() {
+					runtime.Gosched()
+				}
+				b.reg.Start()
+			}()
+		}
+		ready.Wait()
+		gate.Store(true)
+		wg.Wait()
+		n := func() int { mu.Lock(); defer mu.Unlock(); return len(polls) }
+		if !waitFor(30*time.Second, func() bool { return n() >= 3 }) {
+			stopRegistry(b.reg)
+			b.close()
+			if !strings.Contains(allStacks(), "MetricRegistry).run") {
+				return kit.Viol(c.Backend+":start-no-poller", "after %d concurrent Start calls no goroutine is inside the poll loop", c.Starters)
+			}
+			return kit.Outcome{Harness: "fewer than 3 polls within 30 s (inconclusive)"}
+		}
+		done := make(chan struct{})
+		go func() { b.reg.Stop(); close(done) }()
+		select {
+		case <-done:
+		case <-time.After(30 * time.Second):
+			b.close()
+			return kit.Outcome{Harness: "Stop did not return within 30 s (inconclusive)"}
+		}
+		stopped := clock.Add(1)
+		time.Sleep(20 * period)
+		end := clock.Add(1)
+		mu.Lock()
+		ids := map[int64]int{}
+		late := 0
+		for _, p := range polls {
+			if p.stamp < stopped {
+				ids[p.gid]++
+			} else if p.stamp < end {
+				late++
+			}
+		}
+		mu.Unlock()
+		b.reg.Stop()
+		b.close()
+		if late > 0 {
+			return kit.Viol(c.Backend+":poll-outside-start-stop", "trial %d: %d goroutines called Start at the same moment; after Stop had returned the gauge was still polled %d times", trial, c.Starters, late)
+		}
+		if len(ids) > 1 {
+			return kit.Viol(c.Backend+":several-pollers", "trial %d: %d goroutines called Start at the same moment: gauges were polled from %d different goroutines", trial, c.Starters, len(ids))
+		}
+	}
+	return kit.Outcome{NonTrivial: c.Starters >= 2, Labels: []string{"backend:" + c.Backend}}
+}
+
+func TestC20_registry_parallel_start(t *testing.T) {
+	kit.RequireMode(t, "std")
+	kit.Check(t, kit.Prop[c20SCase]{
+		ID: "C20", Quick: 24, Thor: 600,
+		Rule: "2-8 real threads call Start on a fresh registry at the same moment (spin barrier), 10-30 fresh registries per case; one poller goroutine only, no poll after Stop returned (observed over 20 periods); non-trivial = at least two starters",
+		Gen: func(t *rapid.T) c20SCase {
+			return c20SCase{Backend: rapid.SampledFrom([]string{"gometrics", "datadog"}).Draw(t, "backend"), Starters: rapid.IntRange(2, 8).Draw(t, "starters"), Trials: rapid.IntRange(10, 30).Draw(t, "trials")}
+		},
+		Run: runC20S, NoShrink: true,
 	})
 }
